@@ -1,0 +1,31 @@
+//go:build verif
+
+package ast
+
+import "sync/atomic"
+
+// VerifIterStats records what the producer side of IterVisitor observed.
+// It exists only in verification builds (build tag verif).
+var VerifIterStats struct {
+	Sends  atomic.Int64 // nodes handed to the channel
+	Full   atomic.Int64 // sends that found the channel full (producer has to wait for the consumer)
+	Empty  atomic.Int64 // sends that found the channel empty (consumer is waiting or keeps up)
+	MaxLen atomic.Int64 // largest backlog seen
+}
+
+func verifObserveSend(c chan Node) {
+	n := int64(len(c))
+	VerifIterStats.Sends.Add(1)
+	if n == int64(cap(c)) {
+		VerifIterStats.Full.Add(1)
+	}
+	if n == 0 {
+		VerifIterStats.Empty.Add(1)
+	}
+	for {
+		m := VerifIterStats.MaxLen.Load()
+		if n <= m || VerifIterStats.MaxLen.CompareAndSwap(m, n) {
+			break
+		}
+	}
+}
